@@ -108,3 +108,10 @@ package keeper
 //@   ensures creator_only: err == nil ==> str(creator) == bech32dec(msg.Signer) && len(creator) > 0
 //@   ensures once: err == nil ==> !cpSet
 //@   ensures unauthorized_unchanged: str(creator) != bech32dec(msg.Signer) || cpSet ==> err != nil && world(goCtx) == old(world(goCtx))
+
+//@ contract (*Keeper).UpdateClient
+//@   let cfg = k.ClientV2Keeper.GetConfig(goCtx, msg.ClientId)
+//@   let allowed = cfg.IsAllowedRelayer(bytes(bech32dec(msg.Signer)))
+//@   modifies world(goCtx)
+//@   ensures relayer_allowed: err == nil && k.ClientV2Keeper != nil ==> allowed
+//@   ensures not_allowed_unchanged: k.ClientV2Keeper != nil && !allowed ==> err != nil && world(goCtx) == old(world(goCtx))
